@@ -24,6 +24,8 @@ def _op(o, n):
         return {"op": k, "a": o["a"], "b": o["b"]}
     if k == "num":
         return {"op": "num", "axis": o["axis"]}
+    if k in ("slice_depths", "slice_sum"):
+        return dict(o)
     if k == "carry":
         return {"op": "carry", "index": [n - 1, 0] if n > 0 else []}
     return {"op": k}
@@ -40,7 +42,8 @@ def steps_virtual(case, pick):
         st["alt"] = WRONG
     if cfg["mode"] == "bad_first":
         st["alt"] = {"c": "Numpy", "dt": "b", "d": [1]}
-    if pick([0, 0, 1]) == 1:
+    # (the slices of the depth questions are answered lazily by the VirtualArray itself, not by a list node above it)
+    if pick([0, 0, 1]) == 1 and not any(h["o"]["op"] in ("slice_depths", "slice_sum", "depths") for h in case["steps"]):
         st["wrap_offsets"] = [0, n] if pick([0, 1]) else [0, 0, n]
     return [st]
 
@@ -64,6 +67,10 @@ def judge_virtual(case, res, wsteps):
             # the operation is refused on the eager array too (e.g. index out of range): the virtual one must refuse as well
             if v.get("ok") == 1:
                 return "step %d (%s): raises on the eager array but returned %s on the virtual one" % (i, name, json.dumps(v)[:120])
+            if name == "slice_sum":
+                # the reduction itself is refused (an axis the records' branching does not allow): whether the refusal comes
+                # before or after the data are generated is nobody's promise, so the model's bookkeeping ends here
+                return None
             continue
         if wrapped and v.get("ok") != 1 and case["cfg"]["mode"] != "ok":
             if v.get("exc") not in ("ValueError", "RuntimeError"):
